@@ -422,3 +422,106 @@ def canon(e, depth=0):
     if k == "repeat":
         return "[%s;%s]" % (canon(e[1], d), e[2])
     return str(e)
+
+
+# ---- linear normaliser -----------------------------------------------------------------
+
+def lin(e):
+    """linear form of an integer expression: (dict var->coef, const) or None.
+    Variables are canonical texts of non-linear sub-expressions.  Casts are looked through
+    (callers use this only where operands are widened small integers); wrapping_add/sub/
+    saturating ops on widened operands are treated as exact (+/-)."""
+    e0 = e
+    while e[0] == "cast":
+        e = e[1]
+    if e[0] == "const" and e[1] is not None:
+        return ({}, e[1])
+    if e[0] == "bin" and e[1] in ("Add", "Sub"):
+        a, b = lin(e[2]), lin(e[3])
+        if a is None or b is None:
+            return None
+        return _lcomb(a, b, 1 if e[1] == "Add" else -1)
+    if e[0] == "call":
+        nm = e[1].split("::")[-1]
+        if nm in ("wrapping_add", "wrapping_sub") and len(e[2]) == 2:
+            a, b = lin(e[2][0]), lin(e[2][1])
+            if a is None or b is None:
+                return None
+            return _lcomb(a, b, 1 if nm == "wrapping_add" else -1)
+    if e[0] in ("ref", "deref"):
+        return lin(e[1])
+    return ({canon(e): 1}, 0)
+
+
+def _lcomb(a, b, sign):
+    d = dict(a[0])
+    for k, v in b[0].items():
+        d[k] = d.get(k, 0) + sign * v
+        if d[k] == 0:
+            del d[k]
+    return (d, a[1] + sign * b[1])
+
+
+def signed(v, ty):
+    """reinterpret a constant's bits as signed for iN types"""
+    bits = {"i8": 8, "i16": 16, "i32": 32, "i64": 64, "isize": 64}.get(ty)
+    if bits and v >= 1 << (bits - 1):
+        return v - (1 << bits)
+    return v
+
+
+# ---- expression patterns ---------------------------------------------------------------
+COMMUTATIVE = {"Add", "Mul", "BitAnd", "BitOr", "BitXor", "Eq", "Ne"}
+
+
+def match(e, pat, env=None):
+    """structural match of expression `e` against pattern `pat` (casts/refs on `e` are looked through).
+    patterns: ('param', name) ('v', int) ('named', suffix[, int]) ('bin', op, p, q) ('call', suffix, [p..])
+              ('path', root_name, (fields..)) ('any',) ('bind', key) ('un', op, p) ('index', p, q) ('len', p)"""
+    if env is None:
+        env = {}
+    e = strip(e)
+    k = pat[0]
+    if k == "any":
+        return True
+    if k == "bind":
+        c = canon(e)
+        if pat[1] in env:
+            return env[pat[1]] == c
+        env[pat[1]] = c
+        return True
+    if k == "param":
+        return is_param(e, pat[1])
+    if k == "path":
+        return is_path(e, pat[1], pat[2])
+    if k == "v":
+        return e[0] == "const" and e[1] == pat[1]
+    if k == "named":
+        return const_named(e, pat[1]) and (len(pat) < 3 or e[1] == pat[2])
+    if k == "bin":
+        if e[0] != "bin" or e[1] != pat[1]:
+            return False
+        if match(e[2], pat[2], env) and match(e[3], pat[3], env):
+            return True
+        if pat[1] in COMMUTATIVE:
+            return match(e[2], pat[3], env) and match(e[3], pat[2], env)
+        return False
+    if k == "un":
+        return e[0] == "un" and e[1] == pat[1] and match(e[2], pat[2], env)
+    if k == "call":
+        if e[0] != "call" or not (e[1] == pat[1] or e[1].endswith("::" + pat[1]) or e[1].endswith(pat[1])):
+            return False
+        if len(pat) > 2:
+            if len(e[2]) != len(pat[2]):
+                return False
+            if all(match(a, p, env) for a, p in zip(e[2], pat[2])):
+                return True
+            if len(pat) > 3 and pat[3] == "comm" and len(pat[2]) == 2:
+                return match(e[2][0], pat[2][1], env) and match(e[2][1], pat[2][0], env)
+            return False
+        return True
+    if k == "index":
+        return e[0] == "index" and match(e[1], pat[1], env) and match(e[2], pat[2], env)
+    if k == "len":
+        return e[0] == "len" and match(e[1], pat[1], env)
+    raise ValueError("bad pattern %r" % (pat,))
